@@ -72,12 +72,17 @@ class Movers(_Sys):
                     if m.random.random() < 0.5:
                         self.call(env.move, a, m.random.randint(-2, 2), m.random.randint(-2, 2))
                     else:   # hop to a random neighbouring cell (moore / von neumann, radius 1-2)
-                        cells = self.call(env.get_neighbours, a[m.position_type], m.random.randint(1, 2), False, tuple,
+                        cells = self.call(env.get_neighbours, a[m.position_type], m.random.randint(1, 2), m.random.random() < 0.5, tuple,
                                           m.random.choice(['moore', 'neumann']))
                         ids = self.call(env.get_moore_neighbours, a[m.position_type], 1, True)
                         m.trace.append(f'nb:{a.id}:{len(cells)}:{ids}')
                         if cells:
-                            c = m.random.choice(cells)
+                            # the answer is the caller's list: it is shuffled in place with the model's generator, the first entry is the
+                            # destination, and the rest is thrown away
+                            m.random.shuffle(cells)
+                            c = cells[0]
+                            del cells[1:]
+                            ids.reverse()
                             self.call(env.move_to, a, c[0], c[1])
                 else:
                     self.call(env.move, a, m.random.uniform(-2, 2), m.random.uniform(-2, 2), m.random.uniform(-1, 1))
